@@ -197,14 +197,19 @@ class GradientMethod(Alg):
             if self.proxg is not None:
                 backend.copyto(self.x, self.proxg(self.alpha, self.x))
 
+            z_diff = 0
             if self.accelerate:
                 t_old = self.t
                 self.t = (1 + (1 + 4 * t_old**2) ** 0.5) / 2
-                backend.copyto(
-                    self.z, self.x + ((t_old - 1) / self.t) * (self.x - x_old)
-                )
+                z_new = self.x + ((t_old - 1) / self.t) * (self.x - x_old)
+                z_diff = xp.linalg.norm(z_new - self.z).item()
+                backend.copyto(self.z, z_new)
 
-            self.resid = xp.linalg.norm(self.x - x_old).item() / self.alpha
+            # With acceleration x can repeat (e.g. pinned by a box or soft
+            # threshold) while the extrapolated point is still moving, so the
+            # residual also measures the change of z.
+            x_diff = xp.linalg.norm(self.x - x_old).item()
+            self.resid = (x_diff**2 + z_diff**2) ** 0.5 / self.alpha
 
     def _done(self):
         return (self.iter >= self.max_iter) or self.resid <= self.tol
